@@ -139,10 +139,12 @@ type Policy struct {
 	AckCodes   []message.ResultCode // cycled over chunks; empty = SUCCEEDED
 	AckDup     bool                 // every ack is sent twice
 	AckReverse bool                 // results inside a batched ack are listed in reverse order
-	Alias      AliasMode
-	AliasN     int
-	AnswerPing bool
-	PongDelay  time.Duration
+	// UpAliasFromZero: upstream stream aliases are handed out from 0 instead of 1.
+	UpAliasFromZero bool
+	Alias           AliasMode
+	AliasN          int
+	AnswerPing      bool
+	PongDelay       time.Duration
 }
 
 // Broker is the peer.
@@ -427,6 +429,9 @@ func (lc *LinkCtx) OpenUpstream(t *message.UpstreamOpenRequest) *message.Upstrea
 	lc.mu.Lock()
 	lc.nextUp++
 	alias := lc.nextUp
+	if b.P.UpAliasFromZero {
+		alias-- // the first upstream of a link gets stream alias 0 (a legal value)
+	}
 	lc.upAlias[alias] = us
 	lc.mu.Unlock()
 	us.LinkAlias[lc.L.ID] = alias
@@ -464,6 +469,9 @@ func (lc *LinkCtx) ResumeUpstream(t *message.UpstreamResumeRequest) *message.Ups
 	lc.mu.Lock()
 	lc.nextUp++
 	alias := lc.nextUp
+	if b.P.UpAliasFromZero {
+		alias-- // the first upstream of a link gets stream alias 0 (a legal value)
+	}
 	lc.upAlias[alias] = us
 	lc.mu.Unlock()
 	us.LinkAlias[lc.L.ID] = alias
